@@ -1,49 +1,72 @@
+# the librfn sources the WAV header code needs, each compiled as an object of its own (util.c wants time_now(): stub in the harness)
+WAVLIB = ['pack.c', 'util.c', 'string.c', 'wavheader.c']
 CHECK = dict(
     level='fault_enumeration',
-    parts=[dict(name='c14', src=['harness/c14_wavdecode.c'], workers=16,
+    parts=[dict(name='c14', src=['harness/c14_wavdecode.c'], lib=WAVLIB, workers=16,
                 deadline=dict(quick=120, thorough=900)),
-           dict(name='c14asan', src=['harness/c14_helpers.c'], workers=16,
+           dict(name='c14asan', src=['harness/c14_helpers.c'], lib=WAVLIB, workers=16,
                 cflags=['-fsanitize=address', '-fsanitize-recover=address', '-fno-omit-frame-pointer', '-O1'],
-                deadline=dict(quick=120, thorough=300))],
-    rule='bounded-exhaustive enumeration of malformed inputs to the real rf_wavheader_decode: (S) every byte string of '
-         'length 0..L; (H) five valid headers (PCM16, PCM32, float+fact, extensible with the 22-byte extension, 20-byte '
-         'fmt chunk without it) with every choice of <= D deviating fields, each deviating field taking every value of a '
-         'fixed adversarial menu (ids: one byte off/"fact"/"data"; 16-bit: 0,1,3,22,0xfffe,0xffff; 32-bit: 0,1,4,12,15..19,'
-         '40,41,v-1,v+1,0x7fffffff,0x80000000,0xffffffee..0xffffffff), followed by 2 extra bytes, presented at EVERY '
-         'truncation length 0..len+2. Each input lies in a buffer of exactly the declared size ending at a PROT_NONE page '
-         '(second placement: starting right after one); the result is compared with an independent 64-bit reference '
-         'parser, then validate/get_format/tostring run on the structure left behind. evaluations = decode calls with '
-         'the end-guarded placement; distinct_nontrivial = distinct (template, input bytes, declared length) triples, '
-         'counted with a hash set over the inputs that show the last deviation (other prefixes are inputs of a case with '
-         'fewer deviations); distinct_observations = distinct (decoded structure, accepted?) pairs handed to the helpers. '
+                deadline=dict(quick=120, thorough=600))],
+    rule='bounded-exhaustive enumeration of malformed inputs to the real rf_wavheader_decode (librfn linked as separate objects, '
+         'its statics reset before every decode): (S) every byte string of length 0..L; (H) nine header templates (PCM16, PCM32, '
+         'float+fact, extensible with the 22-byte extension, 20-byte fmt chunk without it, PCM16+fact, extensible+fact, PCM16 '
+         'followed by a LIST chunk, float+fact followed by a JUNK chunk) with every choice of <= D deviating fields, each '
+         'deviating field taking every value of a menu derived from its kind, its template value v and the constants K the '
+         'grammar compares it with (ids: one byte off at each of the 4 positions, case of each letter flipped one by one and '
+         'all at once, fact/data/LIST/bext/JUNK/FACT/"fmt "; 16-bit: 0,1,3,22,0xfffe,0xffff,0x100,0xff00,0x7fff,0x8000 and '
+         'K+0x100, K+0x8000 for K = v, the tags 1/3/0xfffe, the widths 16/32, the extension size 22; 32-bit: 0,1,4,12,15..19,'
+         '40,41,v-1,v+1,v+0x100,v+0x10000,0x7fffffff,0x80000000,0xffffffee..0xffffffff; GUID: zero, one bit, the tag menu in its '
+         'first two bytes), followed by 2 extra bytes, presented at EVERY truncation length 0..len+2 (a prefix that ends before '
+         'the last deviating field is an input of the case without that deviation and is judged there; its result still enters '
+         'the truncation clause). Triple deviations (thorough) draw from a reduced core menu per kind. Each input lies in a buffer of '
+         'exactly the declared size ending at a PROT_NONE page (second placement: starting right after one); the result is compared '
+         'with an independent 64-bit reference parser, then validate/get_format/tostring run on the structure left behind; a call '
+         'that does not return within one to two 4 s watchdog periods is reported as an endless loop, and after 2 of them the '
+         'worker stops and hands in everything found. evaluations = decode calls with the end-guarded placement on inputs the case '
+         'owns; distinct_nontrivial = distinct (template, input bytes, declared length) triples, counted with a hash set; '
+         'distinct_observations = distinct (decoded structure, accepted?) pairs handed to the helpers. '
          'Big-header family: full product of 18 fmt-extension lengths (0 .. 16 MiB, on both sides of 2^8, 2^12, 2^16, 2^17, 2^24) x 5 '
          'cb_size values x 3 format tags x fact chunk or not x 0/2 trailing bytes = 1080 headers, each presented complete and at up to '
          '18 truncation points around every layout boundary. '
-         'Second part (c14asan, AddressSanitizer build of the librfn sources): FULL PRODUCT of an extreme-value menu per numeric '
-         'field (format tag 6, channels 9, sample rate 9, block align 5, bits 5, data size 8 values, sub-format 4) over three header '
-         'shapes (plain, fmt+fact, extensible), each decoded from an exactly-sized heap buffer, then validate/get_format/tostring on '
-         'the result; any ASan report or signal is a violation',
-    bounds=dict(quick='L = 2 (65 793 strings); D = 2 deviating fields out of 13..20, all 5 templates, every truncation length; helpers product family: all 388 800 field combinations; 1080 big headers (up to 16 MiB) x <= 19 lengths',
-                thorough='L = 3 (16.8 million strings); D = 3 deviating fields, all 5 templates, every truncation length, '
-                         'both guard placements at every length; helpers product family and big headers as in quick'),
+         'Second part (c14asan, AddressSanitizer build of harness and librfn objects; every input in a malloc block of exactly the '
+         'declared size, so the end of the buffer takes every alignment): (P) FULL PRODUCT of an extreme-value menu per numeric field '
+         '(format tag 10, channels 13, sample rate 9, block align 9, bits 9, data size 8 values, sub-format 4; every 16-bit menu with '
+         '0x100, 0xff00, 0x7fff, 0x8000) over three header shapes (plain, fmt+fact, extensible); (D) dense small values: full product '
+         'channels x block_align x bits_per_sample, each 0..32, x 3 shapes x 3 format tags x 3 data sizes; (T) truncation sweep: every '
+         'template header with <= 1 (thorough 2) deviating fields at every truncation length t from malloc(t), and (S) every byte '
+         'string of 0..2 bytes; each decoded, then validate/get_format/tostring on the result; any ASan report, signal or endless '
+         'loop is a violation (a family stops at its first one)',
+    bounds=dict(quick='L = 2 (65 793 strings); D = 2 deviating fields out of 13..21, all 9 templates (3271 single and 568 145 double '
+                      'deviations), every truncation length; 1080 big headers (up to 16 MiB) x <= 19 lengths; ASan part: product family '
+                      '2 274 480 field combinations, dense family 970 299, truncation sweep D = 1 (110 292 + 9 x len decodes from '
+                      'exactly-sized heap blocks) and all strings of <= 2 bytes',
+                thorough='L = 3 (16.8 million strings); D = 2 over the full menus plus D = 3 over the core menus (3.4 million triple '
+                         'deviations), all 9 templates, every truncation length, both guard placements at every length; big headers, '
+                         'product and dense families as in quick; ASan truncation sweep D = 2 (13.6 million decodes)'),
     assumptions=['declared length == real buffer length (the statement\'s "reads only the supplied bytes")',
                  'x86-64/LP64: pointer arithmetic far past the buffer (rf_pack cursor += 0xffffffed) does not fault by itself; '
                  'it is undefined behaviour in C but the property does not speak about it',
-                 'the reference parser (wav_common.h, 25 lines) is trusted; it follows the chunk grammar, takes no pad byte '
-                 'after odd chunk sizes and treats fmt sizes < 16, 17, odd sizes and cb_size 22 outside a 40-byte fmt chunk '
-                 'as headers whose length the statement does not define (memory safety, >= 44, truncation and helper '
-                 'clauses still enforced there)',
+                 'the reference parser (wav_common.h, 30 lines) is trusted; it follows the chunk grammar, takes no pad byte '
+                 'after odd chunk sizes and treats fmt sizes < 16, 17, odd sizes, cb_size 22 outside a 40-byte fmt chunk and a '
+                 'fact chunk whose size field is not 4 as headers whose length the statement does not define (memory safety, '
+                 '>= RF_WAVHEADER_MIN_SIZE, truncation and helper clauses still enforced there)',
+                 'the chunk that follows fmt (or fact) is the last chunk of the header whatever its id (LIST, JUNK, ...): that is '
+                 'the layout librfn documents; a decoder that steps over such chunks reports another length and is flagged',
+                 '"terminates": a helper call still running after one to two watchdog periods of 4 s is called an endless loop '
+                 '(2^32 trivial iterations end well inside that)',
                  'accept/reject decisions are not checked: the statement allows a negative result for any input',
                  'quantifier says "random" strings: replaced by the structured exhaustive corpus above, nothing is sampled'],
 )
 CHECK.update(
     technique='bounded-exhaustive fault enumeration: deviation-bounded field mutation of valid WAV headers x every truncation '
-              'point, guard-page placement, independent reference parser',
-    level_text='Every header within <= 2 (thorough 3) field deviations of five valid templates over adversarial value menus, at '
+              'point, guard-page placement and exactly-sized heap blocks under AddressSanitizer, independent reference parser',
+    level_text='Every header within <= 2 (thorough 3) field deviations of nine templates over adversarial value menus, at '
                'every truncation length, plus all byte strings up to 2 (3) bytes, decoded by the real code in exactly-sized '
-               'guard-paged buffers and compared with a 64-bit reference parser; helpers run on every distinct resulting structure.',
-    level_note='Bounded: inputs further than 3 field deviations from a valid header (except the all-numeric-fields product family of the ASan part), menu values not listed and headers longer '
-               'than 70 bytes are covered only by the big-header family (skipped fmt extension). Trusted: the reference parser and the guard-page mechanism.',
+               'guard-paged buffers and compared with a 64-bit reference parser; helpers run on every distinct resulting structure; '
+               'under AddressSanitizer the full product of extreme field values, the dense product of small channel / alignment / '
+               'width values and the truncation sweep from exactly-sized malloc blocks.',
+    level_note='Bounded: inputs further than 3 field deviations from a template (except the all-numeric-fields product families of the ASan part), menu values not listed and headers longer '
+               'than 82 bytes are covered only by the big-header family (skipped fmt extension). Trusted: the reference parser, the guard-page mechanism and AddressSanitizer.',
     design_ref='DESIGN.md section 4, C14',
 )
 
